@@ -21,10 +21,10 @@ namespace LunaVerif.Desc.Gen
 
 /-- One `USBDescriptorStreamGenerator`. -/
 structure Config where
-  data : Array Nat
+  data : List Nat
 deriving Repr
 
-def Config.len (c : Config) : Nat := c.data.size
+def Config.len (c : Config) : Nat := c.data.length
 /-- width of `start_position`, `position_in_stream` and of the ROM address. -/
 def Config.w (c : Config) : Nat := bitsFor (c.len - 1)
 
@@ -107,13 +107,7 @@ structure In where
   ready    : Bool
 deriving Repr
 
-structure Out where
-  valid   : Bool
-  first   : Bool
-  last    : Bool
-  payload : Nat
-  stall   : Bool
-deriving Repr, DecidableEq
+abbrev Out := Beat
 
 def init (c : Config) : State := ⟨c.entries.map (fun _ => (Gen.init, false)), false⟩
 
@@ -133,21 +127,28 @@ def stepEntry (c : Config) (i : In) (e : Entry) (gs : Gen.State × Bool) : (Gen.
   let (g', o) := Gen.step e.gen gs.1 gi
   ((g', if sel then (i.start && !pastEnd e i.startPos) else gs.2), o)
 
-def stepEntries (c : Config) (i : In) : List Entry → List (Gen.State × Bool) → List ((Gen.State × Bool) × Gen.Out)
-  | e :: es, g :: gs => stepEntry c i e g :: stepEntries c i es gs
-  | _, _ => []
+/-- all entries for one cycle: the next per-entry states, and the (entry, generator outputs) the
+`Switch(value)` selects (the first entry whose key matches; keys are distinct). -/
+def stepAll (c : Config) (i : In) :
+    List Entry → List (Gen.State × Bool) → List (Gen.State × Bool) × Option (Entry × Gen.Out)
+  | e :: es, g :: gs =>
+    let r := stepEntry c i e g
+    let rest := stepAll c i es gs
+    (r.1 :: rest.1, if e.key == i.value then some (e, r.2) else rest.2)
+  | _, _ => ([], none)
+
+/-- the handler's outputs from the selected generator's outputs and the `send_zlp` strobe. -/
+def mkOut (sel : Option (Entry × Gen.Out)) (sendZlp start : Bool) : Out :=
+  match sel with
+  | some (_, g) => ⟨g.valid || sendZlp, g.first, g.last || sendZlp, g.payload, false⟩
+  | none => ⟨sendZlp, false, sendZlp, 0, start⟩
 
 def step (c : Config) (s : State) (i : In) : State × Out :=
-  let rs := stepEntries c i c.entries s.gens
-  let sel : Option (Entry × Gen.Out) :=
-    (c.entries.zip (rs.map (·.2))).find? (fun p => p.1.key == i.value)
-  let zlp' := match sel with
+  let r := stepAll c i c.entries s.gens
+  let zlp' := match r.2 with
     | some (e, _) => i.start && pastEnd e i.startPos
     | none => false
-  let o : Out := match sel with
-    | some (_, g) => ⟨g.valid || s.sendZlp, g.first, g.last || s.sendZlp, g.payload, false⟩
-    | none => ⟨s.sendZlp, false, s.sendZlp, 0, i.start⟩
-  (⟨rs.map (·.1), zlp'⟩, o)
+  (⟨r.1, zlp'⟩, mkOut r.2 s.sendZlp i.start)
 
 def run (c : Config) : State → List In → List Out
   | _, [] => []
